@@ -620,7 +620,9 @@ def selftest_records():
     put(save, ["OneHeaderLine", "RowCount", "RowText", "ParsedRound6"], lines=[cps("a;b ();höhe (m)")], parsed=[])
     brk = dict(save, names=[cps("a\nb"), cps("höhe\r\n")], units=[cps("\rx"), cps("m")])
     put(brk, [], lines=[cps("a b ( x);höhe  (m)"), cps("-0.000000;1.234568")])
-    put(brk, [], lines=[cps("a b (x);höhe (m)"), cps("-0.000000;1.234568")])
+    put(brk, [], lines=[cps("ab (x);höhe (m)"), cps("-0.000000;1.234568")])
+    put(brk, ["HeaderLine"], lines=[cps("a b (x);höhe(m)"), cps("-0.000000;1.234568")])
+    put(brk, ["HeaderLine"], lines=[cps("a  b (x);höhe (m)"), cps("-0.000000;1.234568")])
     put(brk, ["OneHeaderLine", "RowCount", "RowText", "HeaderLine"],
         lines=[cps("a"), cps("b ("), cps("x);höhe"), cps(" (m)"), cps("-0.000000;1.234568")])
     put(brk, ["HeaderLine"], lines=[cps("a b (x);hohe (m)"), cps("-0.000000;1.234568")])
@@ -696,8 +698,9 @@ def run(ctx):
     import matplotlib
     matplotlib.use("Agg")
     ctx.rule = ("TLC enumerates every configuration: save_contour_coordinates: 1-4 points x 2-D/3-D x semantics None or "
-                "13 string assignments over {'Hs','Wave height','a;b','höhe','θ','m²','','x (y)', and five strings with "
-                "LF / CR LF / CR line breaks inside, leading, trailing} x 10 paths "
+                "20 string assignments over {'Hs','Wave height','a;b','höhe','θ','m²','','x (y)', five strings with LF / "
+                "CR LF / CR line breaks inside, leading, trailing, seven with a tab, double / triple / leading / "
+                "trailing blanks, a blank next to a line break} x 10 paths "
                 "(with/without extension, dotted directories, hidden files, trailing dot, spaces); plot_2D_contour: 1-4 "
                 "points x swap_axis x design_conditions None/True/ndarray/list/tuple/list of tuples x sample x semantics x ax; "
                 "real contour objects of all 2-D classes incl. a multi-region highest density contour (2-D; 3-D for "
